@@ -58,7 +58,8 @@ REQUIRED = dict(
              'T:isothermal', 'T:npoint', 'T:guillot', 'units:km', 'scale:irregular-levels', 'stored:hdf5', 'stored:recorded',
              'perturb:temperature', 'perturb:abundance', 'perturb:pressure', 'perturb:top-layer', 'perturb:bottom-layer',
              'via-setter', 'pressure:array-with-unordered-derived-levels', 'T-dtype:i', 'T-dtype:f',
-             'T:integer-valued-layers', 'shared-planet:earlier-model-rejudged'])
+             'T:integer-valued-layers', 'shared-planet:earlier-model-rejudged', 'model:evaluated-then-rejudged',
+             'path-method:new', 'path-method:old'])
 
 AMU = L.R.AMU
 
@@ -144,6 +145,7 @@ def gen_spec(rng, pkinds=('simple', 'simple', 'array', 'file'), tkinds=('layers'
                                                  + 1e-6, 1e-8, 0.6)]
     spec['h2o'] = float(10 ** rng.uniform(-8, -2))
     spec['active'] = ['H2O'] + ([heavy] if rng.random() < 0.5 else [])
+    spec['new_method'] = bool(rng.random() < 0.4)
     return spec
 
 
@@ -199,7 +201,8 @@ def build(ctx, spec, planet=None):
     if spec['heavy'] != 'N2':
         chem.addGas(ConstantGas('N2', mix_ratio=1e-5))
     model = TransmissionModel(planet=planet, star=BlackbodyStar(temperature=5000.0, radius=1.0), pressure_profile=pressure,
-                              temperature_profile=temperature, chemistry=chem)
+                              temperature_profile=temperature, chemistry=chem,
+                              new_path_method=bool(spec.get('new_method', False)))
     return model
 
 
@@ -413,6 +416,20 @@ def wl_model(ctx, rng):
     n = spec['n']
     bad = {k: list(v.shape) for k, v in d.items() if v.shape[-1] != (n + 1 if k == 'exposed:zb' else n)}
     ctx.check('everything-one-per-layer', not bad, bad=bad, n=n)
+    # the spectrum is computed (either path-length method): what the model exposes afterwards is judged again -- the
+    # radiative transfer may not have written into the vertical structure
+    if not spec.get('unordered') and n >= 2:
+        from taurex.contributions import AbsorptionContribution
+        m.add_contribution(AbsorptionContribution())
+        m.build()
+        m.model()
+        L._h['judge_model'](m)
+        d2 = collect(ctx, m)
+        same = all(np.array_equal(d2[k], d[k]) for k in d if k.startswith('exposed:') and k in d2)
+        ctx.check('exposed-profiles-unchanged-by-evaluating-the-spectrum', same,
+                  changed=[k for k in d if k.startswith('exposed:') and k in d2 and not np.array_equal(d2[k], d[k])],
+                  new_method=spec['new_method'])
+        ctx.observe('model:evaluated-then-rejudged', 'path-method:' + ('new' if spec['new_method'] else 'old'))
     ctx.sig('model', spec['pkind'], spec['tkind'], n, round(spec['planet'][0], 6), round(spec['planet'][1], 6), spec['pmax'])
     ctx.sample({'pressure': spec['pkind'], 'T': spec['tkind'], 'nlayers': n, 'planet': spec['planet'],
                 'z_top_over_Rp': float(d['exposed:zb'][-1] / m.planet.fullRadius), 'H_minmax': [float(d['exposed:H'].min()),
